@@ -932,4 +932,313 @@ theorem gBuild_eq {K σ α} [BEq K] [LawfulBEq K] (step : σ → α → σ) (ini
     simpa [List.append_assoc] using this
 
 
+/-! ### the build-side table of the hash join, explicitly -/
+
+def toEntry (p : List Val × List Row) : HEntry := { key := p.1, rows := p.2, matched := false }
+
+theorem hmInsert_toEntry (k : List Val) (row : Row) (m : List (List Val × List Row)) :
+    hmInsert k row (m.map toEntry) = (gInsert (fun rows l => rows ++ [l]) [] k row m).map toEntry := by
+  induction m with
+  | nil => rfl
+  | cons e es ih =>
+    obtain ⟨k', rows⟩ := e
+    simp only [List.map_cons, hmInsert, gInsert, toEntry]
+    split
+    · rfl
+    · simp only [List.map_cons, toEntry]; rw [← ih]
+
+theorem foldl_snoc_id {α} (xs acc : List α) : xs.foldl (fun rows l => rows ++ [l]) acc = acc ++ xs := by
+  induction xs generalizing acc with
+  | nil => simp
+  | cons x xs ih => simp [ih]
+
+/-- entries of a table described by its key list, row function and flag function. -/
+def tbl (D : List (List Val)) (rows : List Val → List Row) (flag : List Val → Bool) : List HEntry :=
+  D.map (fun d => { key := d, rows := rows d, matched := flag d })
+
+theorem hmBuild_struct (lk : List (Row → Val)) (L : List Row) :
+    hmBuild lk L = tbl (dedup (L.map (keyOf lk))) (fun k => L.filter (fun l => keyOf lk l == k)) (fun _ => false) := by
+  unfold hmBuild
+  have h : ∀ (L1 : List Row) (m : List (List Val × List Row)),
+      L1.foldl (fun m l => hmInsert (keyOf lk l) l m) (m.map toEntry) =
+        (L1.foldl (fun m l => gInsert (fun rows l => rows ++ [l]) [] (keyOf lk l) l m) m).map toEntry := by
+    intro L1
+    induction L1 with
+    | nil => intro m; rfl
+    | cons l ls ih => intro m; simp only [List.foldl_cons]; rw [hmInsert_toEntry, ih]
+  have h0 := h L []
+  simp only [List.map_nil] at h0
+  rw [h0]
+  have h2 := gBuild_eq (fun (rows : List Row) l => rows ++ [l]) [] (keyOf lk) L []
+  simp only [List.map_nil, dedup, List.nil_append] at h2
+  rw [h2, List.map_map]
+  unfold tbl
+  apply List.map_congr_left
+  intro k _
+  simp only [Function.comp, toEntry, foldl_snoc_id, List.nil_append]
+
+theorem lookup_tbl_isSome (D : List (List Val)) (rows) (flag) (k : List Val) :
+    (hmLookup k (tbl D rows flag)).isSome = D.contains k := by
+  unfold tbl
+  induction D with
+  | nil => rfl
+  | cons d ds ih =>
+    simp only [List.map_cons, hmLookup, List.contains_cons]
+    by_cases h : d == k
+    · have : (k == d) = true := by rw [eq_of_beq h]; exact BEq.rfl
+      simp [h, this]
+    · have : (k == d) = false := by
+        cases hk : k == d
+        · rfl
+        · exact absurd (by rw [eq_of_beq hk]; exact BEq.rfl) h
+      simp only [h, Bool.false_eq_true, if_false, this, Bool.false_or]; exact ih
+
+theorem mark_tbl (D : List (List Val)) (hD : NoDup D) (rows) (flag) (k : List Val) :
+    hmMark k (tbl D rows flag) = tbl D rows (fun d => flag d || d == k) := by
+  unfold tbl
+  induction D with
+  | nil => rfl
+  | cons d ds ih =>
+    simp only [List.map_cons, hmMark]
+    by_cases h : d == k
+    · simp only [h, if_true, Bool.or_true]
+      congr 1
+      apply List.map_congr_left
+      intro d' hd'
+      have : (d' == k) = false := by
+        have := hD.1 d' hd'; rw [eq_of_beq h] at this; exact this
+      simp [this]
+    · simp only [h, Bool.false_eq_true, if_false, Bool.or_false]
+      rw [ih hD.2]
+
+theorem nomark_tbl (D : List (List Val)) (rows) (flag) (k : List Val) (hk : D.contains k = false) :
+    tbl D rows (fun d => flag d || d == k) = tbl D rows flag := by
+  unfold tbl
+  apply List.map_congr_left
+  intro d hd
+  have : (d == k) = false := by
+    cases h : d == k
+    · rfl
+    · exfalso
+      have : D.contains k = true := by rw [List.contains_iff_mem, ← eq_of_beq h]; exact hd
+      rw [hk] at this; cases this
+  simp [this]
+
+theorem probe_fst_cons (pr : Bool) (rk : List (Row → Val)) (nL : Nat) (r : Row) (rs : List Row) (m : List HEntry) :
+    (hjProbe pr rk nL (r :: rs) m).1 =
+      (hjProbe pr rk nL rs (if (hmLookup (keyOf rk r) m).isSome then hmMark (keyOf rk r) m else m)).1 := by
+  rw [hjProbe]
+  cases hmLookup (keyOf rk r) m <;> simp
+
+/-- matched flags after the probe phase: a key is matched iff some right row carries it. -/
+theorem probe_tbl (pr : Bool) (rk : List (Row → Val)) (nL : Nat) (D : List (List Val)) (hD : NoDup D) (rows)
+    (R : List Row) (flag : List Val → Bool) :
+    (hjProbe pr rk nL R (tbl D rows flag)).1 =
+      tbl D rows (fun d => flag d || R.any (fun r => d == keyOf rk r)) := by
+  induction R generalizing flag with
+  | nil => simp [hjProbe]
+  | cons r rs ih =>
+    rw [probe_fst_cons]
+    have hstep : (if (hmLookup (keyOf rk r) (tbl D rows flag)).isSome then hmMark (keyOf rk r) (tbl D rows flag)
+        else tbl D rows flag) = tbl D rows (fun d => flag d || d == keyOf rk r) := by
+      rw [lookup_tbl_isSome]
+      by_cases hc : D.contains (keyOf rk r)
+      · simp only [hc, if_true]; exact mark_tbl D hD rows flag _
+      · simp only [hc, Bool.false_eq_true, if_false]
+        exact (nomark_tbl D rows flag _ (by simpa using hc)).symm
+    rw [hstep, ih]
+    congr 1; funext d; simp [Bool.or_assoc]
+
+/-! ### grouping by key is a permutation -/
+
+theorem noDup_filter_eq {K} [BEq K] [LawfulBEq K] (D : List K) (hD : NoDup D) (x : K) :
+    D.filter (fun d => d == x) = if D.contains x then [x] else [] := by
+  induction D with
+  | nil => rfl
+  | cons d ds ih =>
+    simp only [List.filter_cons, List.contains_cons]
+    by_cases h : d == x
+    · have e : d = x := eq_of_beq h
+      subst e
+      have hnil : ds.filter (fun d' => d' == d) = [] := by
+        rw [List.filter_eq_nil_iff]; intro y hy; simp [hD.1 y hy]
+      simp [hnil]
+    · have : (x == d) = false := by
+        cases hk : x == d
+        · rfl
+        · exact absurd (by rw [eq_of_beq hk]; exact BEq.rfl) h
+      simp only [h, Bool.false_eq_true, if_false, this, Bool.false_or]
+      exact ih hD.2
+
+theorem group_perm {α K} [BEq K] [LawfulBEq K] (f : α → K) (L : List α) :
+    ((dedup (L.map f)).flatMap (fun k => L.filter (fun a => f a == k))).Perm L := by
+  induction L with
+  | nil => simp [dedup]
+  | cons a as ih =>
+    simp only [List.map_cons, dedup, List.flatMap_cons, List.filter_cons, BEq.rfl, if_true]
+    have hrest : ((dedup (as.map f)).filter (fun y => !(y == f a))).flatMap
+          (fun k => if f a == k then a :: as.filter (fun x => f x == k) else as.filter (fun x => f x == k)) =
+        ((dedup (as.map f)).filter (fun y => !(y == f a))).flatMap (fun k => as.filter (fun x => f x == k)) := by
+      apply flatMap_congr'
+      intro k hk
+      have : (k == f a) = false := by simpa using (List.mem_filter.mp hk).2
+      have : (f a == k) = false := by
+        cases h : f a == k
+        · rfl
+        · rw [eq_of_beq h] at this; simp at this
+      simp [this]
+    rw [hrest]
+    simp only [List.cons_append]
+    refine Perm.cons a ?_
+    -- as ~ as.filter (f = f a) ++ rest
+    have hsplit : ((dedup (as.map f)).flatMap (fun k => as.filter (fun x => f x == k))).Perm
+        (((dedup (as.map f)).filter (fun y => y == f a)).flatMap (fun k => as.filter (fun x => f x == k)) ++
+         ((dedup (as.map f)).filter (fun y => !(y == f a))).flatMap (fun k => as.filter (fun x => f x == k))) := by
+      have := (filter_append_perm (fun y => y == f a) (dedup (as.map f))).symm
+      refine (Perm.flatMap_right _ this).trans ?_
+      rw [List.flatMap_append]
+    have hfirst : ((dedup (as.map f)).filter (fun y => y == f a)).flatMap (fun k => as.filter (fun x => f x == k)) =
+        as.filter (fun x => f x == f a) := by
+      rw [noDup_filter_eq _ (noDup_dedup _), contains_dedup]
+      by_cases hc : (as.map f).contains (f a)
+      · rw [if_pos hc]; simp
+      · rw [if_neg hc, List.flatMap_nil]
+        symm
+        rw [List.filter_eq_nil_iff]
+        intro x hx hxa
+        apply hc
+        rw [List.contains_iff_mem, ← eq_of_beq hxa]
+        exact List.mem_map_of_mem hx
+    rw [hfirst] at hsplit
+    exact hsplit.symm.trans ih
+
+theorem dedup_filter_comm' {α} [BEq α] [LawfulBEq α] (p : α → Bool) (xs : List α) :
+    dedup (xs.filter p) = (dedup xs).filter p := by
+  induction xs with
+  | nil => rfl
+  | cons x xs ih =>
+    simp only [List.filter_cons]
+    cases hp : p x
+    · simp only [Bool.false_eq_true, if_false, dedup, List.filter_cons, hp, ih, List.filter_filter]
+      apply List.filter_congr
+      intro y _
+      by_cases hy : y == x
+      · have : y = x := eq_of_beq hy
+        subst this; simp [hp]
+      · simp [hy]
+    · simp only [if_true, dedup, List.filter_cons, hp, ih, List.filter_filter]
+      congr 1
+      apply List.filter_congr
+      intro y _; exact Bool.and_comm _ _
+
+
+/-- … also for the groups selected by a predicate on the key. -/
+theorem group_perm_filter {α K} [BEq K] [LawfulBEq K] (f : α → K) (q : K → Bool) (L : List α) :
+    (((dedup (L.map f)).filter q).flatMap (fun k => L.filter (fun a => f a == k))).Perm
+      (L.filter (fun a => q (f a))) := by
+  have h := group_perm f (L.filter (fun a => q (f a)))
+  have e1 : dedup ((L.filter (fun a => q (f a))).map f) = (dedup (L.map f)).filter q := by
+    rw [← dedup_filter_comm']
+    congr 1
+    rw [List.filter_map]; rfl
+  rw [e1] at h
+  refine Perm.trans (Perm.of_eq ?_) h
+  apply flatMap_congr'
+  intro k hk
+  have hq : q k = true := (List.mem_filter.mp hk).2
+  rw [List.filter_filter]
+  apply List.filter_congr
+  intro a _
+  by_cases ha : f a == k
+  · rw [eq_of_beq ha]; simp [hq]
+  · simp [ha]
+
+
+/-- the unmatched tail of a left / full hash join, as a bag: the left rows whose key no right row
+carries (structurally), padded. -/
+theorem hashjoin_rest_perm (pr : Bool) (lk rk : List (Row → Val)) (nL nR : Nat) (L R : List Row) :
+    ((((hjProbe pr rk nL R (hmBuild lk L)).1).filter (fun e => !e.matched)).flatMap
+        (fun e => e.rows.map (· ++ nulls nR))).Perm
+      ((L.filter (fun l => (R.filter (fun r => keyOf lk l == keyOf rk r)).isEmpty)).map (· ++ nulls nR)) := by
+  rw [hmBuild_struct, probe_tbl pr rk nL _ (noDup_dedup _)]
+  unfold tbl
+  rw [List.filter_map, List.flatMap_map]
+  simp only [Function.comp_def, Bool.false_or]
+  have e1 : ((dedup (L.map (keyOf lk))).filter (fun d => !R.any (fun r => d == keyOf rk r))).flatMap
+        (fun d => (L.filter (fun l => keyOf lk l == d)).map (· ++ nulls nR)) =
+      (((dedup (L.map (keyOf lk))).filter (fun d => !R.any (fun r => d == keyOf rk r))).flatMap
+        (fun d => L.filter (fun l => keyOf lk l == d))).map (· ++ nulls nR) := by
+    rw [List.map_flatMap]
+  rw [e1]
+  refine (Perm.map _ (group_perm_filter (keyOf lk) (fun d => !R.any (fun r => d == keyOf rk r)) L)).trans (Perm.of_eq ?_)
+  congr 1
+  apply List.filter_congr
+  intro l _
+  rw [filter_isEmpty_eq_not_any]
+
+theorem leftUnmatched_keys (lk rk : List (Row → Val)) (nL nR : Nat) (L R : List Row)
+    (hlen : ∀ l ∈ L, l.length = nL) (hk : KeysComparable lk rk L R) :
+    (L.filter (fun l => (R.filter (fun r => keyOf lk l == keyOf rk r)).isEmpty)).map (· ++ nulls nR) =
+      leftUnmatched (equiOn nL lk rk (fun _ => some true)) nR L R := by
+  unfold leftUnmatched matchesOf
+  congr 1
+  apply List.filter_congr
+  intro l hl
+  congr 1
+  apply List.filter_congr
+  intro r hr
+  rw [equiOn_split nL lk rk l r (hlen l hl)]
+  exact hk l hl r hr
+
+theorem rightUnmatched_keys (lk rk : List (Row → Val)) (nL : Nat) (L R : List Row)
+    (hlen : ∀ l ∈ L, l.length = nL) (hk : KeysComparable lk rk L R) :
+    (R.filter (fun r => (L.filter (fun l => keyOf lk l == keyOf rk r)).isEmpty)).map (nulls nL ++ ·) =
+      rightUnmatched (equiOn nL lk rk (fun _ => some true)) nL L R := by
+  unfold rightUnmatched
+  congr 1
+  apply List.filter_congr
+  intro r hr
+  rw [matchedBy_keys lk rk nL _ _ hlen hk r hr]
+
+theorem flat_append (a b : List Chunk) : flat (a ++ b) = flat a ++ flat b := by simp [flat]
+
+/-- LEFT OUTER hash join = spec under KeysComparable. -/
+theorem hash_eq_spec_left_outer_partial (lk rk : List (Row → Val)) (nL nR : Nat) (Ls Rs : List Chunk)
+    (hlen : ∀ l ∈ flat Ls, l.length = nL) (hk : KeysComparable lk rk (flat Ls) (flat Rs)) :
+    (flat (hashJoin .leftOuter lk rk nL nR Ls Rs)).Perm
+      (joinRel .leftOuter (equiOn nL lk rk (fun _ => some true)) nL nR (flat Ls) (flat Rs)) := by
+  unfold hashJoin
+  simp only [show (JoinType.leftOuter == JoinType.rightOuter || JoinType.leftOuter == JoinType.fullOuter) = false from rfl,
+    show (JoinType.leftOuter == JoinType.leftOuter || JoinType.leftOuter == JoinType.fullOuter) = true from rfl, if_true]
+  rw [flat_emit]
+  have h1 := probe_out_perm false lk rk nL (flat Ls) (flat Rs)
+  have h2 := hashjoin_rest_perm false lk rk nL nR (flat Ls) (flat Rs)
+  simp only [Bool.false_eq_true, if_false, List.append_nil] at h1
+  rw [structural_inner_eq_spec lk rk nL _ _ hlen hk] at h1
+  rw [leftUnmatched_keys lk rk nL nR _ _ hlen hk] at h2
+  unfold joinRel
+  exact (Perm.append h1 h2).trans (leftJoin_perm_decomp _ nR _ _).symm
+
+/-- FULL OUTER hash join = spec under KeysComparable. -/
+theorem hash_eq_spec_full_outer_partial (lk rk : List (Row → Val)) (nL nR : Nat) (Ls Rs : List Chunk)
+    (hlen : ∀ l ∈ flat Ls, l.length = nL) (hk : KeysComparable lk rk (flat Ls) (flat Rs)) :
+    (flat (hashJoin .fullOuter lk rk nL nR Ls Rs)).Perm
+      (joinRel .fullOuter (equiOn nL lk rk (fun _ => some true)) nL nR (flat Ls) (flat Rs)) := by
+  unfold hashJoin
+  simp only [show (JoinType.fullOuter == JoinType.rightOuter || JoinType.fullOuter == JoinType.fullOuter) = true from rfl,
+    show (JoinType.fullOuter == JoinType.leftOuter || JoinType.fullOuter == JoinType.fullOuter) = true from rfl, if_true]
+  rw [flat_emit]
+  have h1 := probe_out_perm true lk rk nL (flat Ls) (flat Rs)
+  have h2 := hashjoin_rest_perm true lk rk nL nR (flat Ls) (flat Rs)
+  simp only [if_true] at h1
+  rw [structural_inner_eq_spec lk rk nL _ _ hlen hk, rightUnmatched_keys lk rk nL _ _ hlen hk] at h1
+  rw [leftUnmatched_keys lk rk nL nR _ _ hlen hk] at h2
+  unfold joinRel fullJoin
+  -- (inner ++ runm) ++ lunm  ~  leftJoin ++ runm
+  refine (Perm.append h1 h2).trans ?_
+  refine Perm.trans ?_ (Perm.append_right _ (leftJoin_perm_decomp _ nR _ _).symm)
+  simp only [List.append_assoc]
+  exact Perm.append_left _ perm_append_comm
+
+
 end RlModel
